@@ -480,6 +480,29 @@ Proof.
   - eapply retry_as_first; eauto.
 Qed.
 
+(* ---------------------------------------------------------------- iteration state *)
+(* whatever an aborted iteration did to the fields it may modify, the next iteration starts from the same state *)
+Theorem aborted_iteration_invisible : forall c m z, iter_row_ok (c, m, z) = true ->
+    forall s1 s2 : cstate, (forall f, mem_str f m = false -> s1 f = s2 f) ->
+    forall f, rewind z s1 f = rewind z s2 f.
+Proof.
+  intros c m z Hok s1 s2 Hagree f. unfold rewind. destruct (mem_str f z) eqn:Hz; [reflexivity|].
+  apply Hagree. destruct (mem_str f m) eqn:Hm; [|reflexivity].
+  simpl in Hok. rewrite forallb_forall in Hok. unfold mem_str in Hm. apply existsb_exists in Hm as [g [Hin Hg]].
+  apply String.eqb_eq in Hg; subst g. rewrite (Hok _ Hin) in Hz. discriminate.
+Qed.
+
+Theorem iter_table_ok : forall t, iter_ok t = true -> forall c m z, In (c, m, z) t ->
+    forall s1 s2 : cstate, (forall f, mem_str f m = false -> s1 f = s2 f) -> forall f, rewind z s1 f = rewind z s2 f.
+Proof.
+  intros t Ht c m z Hin. unfold iter_ok in Ht. rewrite forallb_forall in Ht.
+  exact (aborted_iteration_invisible c m z (Ht _ Hin)).
+Qed.
+
+Example iter_example : iter_ok [("OptimizedList", ["cursor"], ["cursor"])] = true
+                       /\ iter_ok [("OptimizedList", ["cursor"], [])] = false.
+Proof. split; reflexivity. Qed.
+
 (* ---------------------------------------------------------------- satisfiable, and the discipline is not vacuous *)
 (* the shape of the repaired HDF5 writer *)
 Definition ex_writer : cmd :=
